@@ -54,7 +54,7 @@ fn file_of(k: &Key) -> std::path::PathBuf {
 
 fn c10_put_step() {
     pin_self_reference();
-    let cap = 1 + choice(3);
+    let cap = 1 + choice(env_usize("C10_MAXCAP", 3));
     let n_held = choice(cap + 1);
     let mut w = World::new(cap, 4);
     w.settle();
@@ -109,7 +109,7 @@ fn c10_put_step() {
 
 fn c10_burst() {
     pin_self_reference();
-    let cap = 1 + choice(2);
+    let cap = 1 + choice(env_usize("C10_MAXCAP", 3) - 1);
     let mut w = World::new(cap, 4);
     w.settle();
     for i in 0..cap {
@@ -118,7 +118,7 @@ fn c10_burst() {
     }
     check_bool("setup:full", w.driver.node_store().records.len() == cap);
     // two validated writes arrive before any completion notification is processed
-    let n_burst = 2;
+    let n_burst = env_usize("C10_BURST", 2);
     let mut accepted = 0usize;
     for j in 0..n_burst {
         let k = key((cap + j) as u8);
@@ -131,7 +131,7 @@ fn c10_burst() {
         note(format!("cap={cap} after put #{j}: held={held} writes_in_flight={inflight} ok={}", r.is_ok()));
         check_bool("burst:held_le_capacity_plus_inflight", held <= cap + inflight);
     }
-    if accepted == 2 {
+    if accepted >= 2 {
         cover("both_accepted");
     }
     let burst_accepted = accepted;
@@ -144,7 +144,7 @@ fn c10_burst() {
         let inflight = accepted;
         let held = w.driver.node_store().records.len();
         note(format!("after a completion notification: held={held} writes_in_flight={inflight}"));
-        if burst_accepted == 2 && held == cap + inflight + 1 {
+        if burst_accepted >= 2 && held == cap + inflight + 1 {
             // both unacknowledged writes were admitted against an index that the first one had already shrunk
             check_bool("burst:held_le_capacity_plus_inflight[two_unacknowledged_puts_overshoot_by_one]", false);
         } else {
